@@ -539,6 +539,16 @@ def suite_lifecycle(report, tier, seed, prop="C12"):
         if s.dead and s.dead != "shutdown":
             mon_ok = False
             report.add_finding(Finding(prop, "mon:lifecycle", {"clause": "loop-died"}, "the client loop exits: " + s.dead, s.script))
+        closes = [st for st, op in s.ops if op == "close"]
+        if closes:
+            after = [st for st, ev in s.events if ev == "Attempt" and st > closes[0]]
+            if after:
+                mon_ok = False
+                report.add_finding(Finding(prop, "mon:lifecycle", {"clause": "attempt-after-close"}, "a connection attempt was made after close()", s.script[:after[0] + 1]))
+            elif s.dead is None:
+                mon_ok = False
+                report.add_finding(Finding(prop, "mon:lifecycle", {"clause": "close-never-closes"},
+                                           "close() was requested but the client never reached Shutdown although the transport kept reacting", s.script))
         if s.dead is None and getattr(s, "stop_pending", None) is not None:
             stopped_after = [st for st, ev in s.events if ev == "Stopped" and st > s.stop_pending]
             attempts_after_stop = [st for st, ev in s.events if ev == "Attempt" and stopped_after and st > stopped_after[0]]
